@@ -6,6 +6,7 @@ import (
 	"encoding/json"
 	"fmt"
 	"io"
+	"math"
 	"math/big"
 	"math/rand"
 	"strings"
@@ -46,6 +47,8 @@ func (p rcParams) at(d int64) hc.TS { return hc.TS{S: p.Start.S, N: p.Start.N + 
 func (rcFamily) Corpus(string) []*hc.Case {
 	p := rcParams{N: 4, W: int64(time.Second), Start: hc.TS{}}
 	s := int64(time.Second)
+	top := rcParams{N: 5, W: 1, Start: hc.TS{}}
+	mx := int64(math.MaxInt64)
 	return []*hc.Case{
 		// D4: stamp older than the window but after the start must only move TotalSum
 		rcCase(p, []rcOp{{"inc", p.at(20 * s)}, {"inc", p.at(3 * s)}, {"sum", p.at(20 * s)}, {"buckets", p.at(20 * s)}, {"total", hc.TS{}}}),
@@ -55,6 +58,10 @@ func (rcFamily) Corpus(string) []*hc.Case {
 		rcCase(p, []rcOp{{"inc", p.at(-1)}, {"inc", p.at(0)}, {"sum", p.at(0)}, {"inc", hc.TS{S: 400 * 365 * 86400}}, {"sum", p.at(5 * s)}, {"buckets", p.at(5 * s)}, {"inc", p.at(5 * s)}, {"total", hc.TS{}}, {"sum", hc.TS{S: 400 * 365 * 86400}}}),
 		// reset keeps TotalSum; JSON round trip keeps everything
 		rcCase(p, []rcOp{{"inc", p.at(0)}, {"inc", p.at(s)}, {"json", hc.TS{}}, {"sum", p.at(s)}, {"reset", p.at(s)}, {"sum", p.at(s)}, {"total", hc.TS{}}, {"inc", p.at(2 * s)}, {"json", hc.TS{}}, {"buckets", p.at(3 * s)}}),
+		// top of the int range: 1 ns buckets, newest index MaxInt64 (or a few below it); stamps just behind it are inside the
+		// window (an `absIndex+NumBuckets` anywhere would wrap), one window back is out
+		rcCase(top, []rcOp{{"inc", top.at(mx)}, {"inc", top.at(mx - 1)}, {"inc", top.at(mx - 4)}, {"inc", top.at(mx - 5)}, {"sum", top.at(mx)}, {"buckets", top.at(mx)}, {"total", hc.TS{}}, {"json", hc.TS{}}, {"inc", top.at(mx - 2)}, {"buckets", top.at(mx)}}),
+		rcCase(top, []rcOp{{"inc", top.at(mx - 7)}, {"sum", top.at(mx - 2)}, {"inc", top.at(mx - 3)}, {"inc", top.at(mx - 6)}, {"inc", top.at(mx - 7)}, {"buckets", top.at(mx - 2)}, {"sum", top.at(mx - 4)}, {"inc", top.at(mx)}, {"buckets", top.at(mx)}, {"total", hc.TS{}}}),
 		rcCase(rcParams{N: 1, W: 7, Start: hc.TS{S: 5, N: 3}}, []rcOp{{"inc", hc.TS{S: 5, N: 3}}, {"inc", hc.TS{S: 5, N: 9}}, {"sum", hc.TS{S: 5, N: 9}}, {"inc", hc.TS{S: 5, N: 10}}, {"buckets", hc.TS{S: 5, N: 10}}, {"inc", hc.TS{S: 5, N: 4}}, {"sum", hc.TS{S: 5, N: 10}}}),
 	}
 }
